@@ -3,6 +3,7 @@
   Property theorems only (helpers in HealSparse/Lemmas).
 -/
 import HealSparse.Lemmas.Core
+import HealSparse.Lemmas.Coverage
 import HealSparse.Props.C04
 namespace HS
 namespace C01
@@ -14,14 +15,14 @@ theorem reserve_abs (c : Cfg) (vc : VCfg V) (s : State V) (new : List Nat)
     (h : Inv c vc s) (hnd : new.Nodup)
     (hnew : ∀ k ∈ new, k < c.ncov ∧ covered c s k = false) (p : Nat) (hp : p < c.npix) :
     abs c vc (reserve c vc s new) p = abs c vc s p := by
-  sorry
+  exact reserve_abs' c vc s new h hnd hnew p hp
 
 /-- Growth covers exactly the requested coverage pixels in addition. -/
 theorem reserve_covered (c : Cfg) (vc : VCfg V) (s : State V) (new : List Nat)
     (h : Inv c vc s) (hnd : new.Nodup)
     (hnew : ∀ k ∈ new, k < c.ncov ∧ covered c s k = false) (k : Nat) (hk : k < c.ncov) :
     covered c (reserve c vc s new) k = (covered c s k || decide (k ∈ new)) := by
-  sorry
+  exact reserve_covered' c vc s new h hnd k hk
 
 /-- **Refinement**: one `update_values_pix` call (any operation `g`, operand list `L` with
     repeated pixels allowed, either append mode) changes the dense view exactly as the
@@ -31,14 +32,14 @@ theorem updateCore_refines {W : Type} (c : Cfg) (vc : VCfg V) (s : State V) (g :
     (h : Inv c vc s) (hL : ∀ qw ∈ L, qw.1 < c.npix) (p : Nat) (hp : p < c.npix) :
     abs c vc (updateCore c vc s g L na) p
       = denseUpdate c (abs c vc s) (covered c s) g L na p := by
-  sorry
+  exact updateCore_refines' c vc s g L na h hL p hp
 
 /-- The coverage mask after an update is the dense coverage. -/
 theorem updateCore_covered {W : Type} (c : Cfg) (vc : VCfg V) (s : State V) (g : V → W → V)
     (L : List (Nat × W)) (na : Bool)
     (h : Inv c vc s) (hL : ∀ qw ∈ L, qw.1 < c.npix) (k : Nat) (hk : k < c.ncov) :
     covered c (updateCore c vc s g L na) k = denseCov c (covered c s) L na k := by
-  sorry
+  exact updateCore_covered' c vc s g L na h hL k hk
 
 /-- One update operation of a history (the operand type may differ per call). -/
 structure UpdOp (V : Type) where
@@ -68,20 +69,58 @@ theorem history_refines (c : Cfg) (vc : VCfg V) (s : State V) (hs : Inv c vc s)
         = (denseHist c (abs c vc s, covered c s) h).1 p) ∧
     (∀ k, k < c.ncov → covered c (runHist c vc s h) k
         = (denseHist c (abs c vc s, covered c s) h).2 k) := by
-  sorry
+  have key : ∀ (h : List (UpdOp V)) (s : State V) (d : (Nat → V) × (Nat → Bool)),
+      Inv c vc s → (∀ o ∈ h, o.inRange c) →
+      (∀ p, p < c.npix → abs c vc s p = d.1 p) → (∀ k, k < c.ncov → covered c s k = d.2 k) →
+      Inv c vc (runHist c vc s h) ∧
+      (∀ p, p < c.npix → abs c vc (runHist c vc s h) p = (denseHist c d h).1 p) ∧
+      (∀ k, k < c.ncov → covered c (runHist c vc s h) k = (denseHist c d h).2 k) := by
+    intro h
+    induction h with
+    | nil => intro s d hs _ hv hc; exact ⟨hs, hv, hc⟩
+    | cons o h ih =>
+      intro s d hs hr hv hc
+      have ho : o.inRange c := hr o List.mem_cons_self
+      refine ih (updateCore c vc s o.g o.L o.na)
+        (denseUpdate c d.1 d.2 o.g o.L o.na, denseCov c d.2 o.L o.na)
+        (C04.inv_updateCore c vc s o.g o.L o.na hs ho)
+        (fun o' ho' => hr o' (List.mem_cons_of_mem _ ho')) ?_ ?_
+      · intro p hp
+        rw [updateCore_refines c vc s o.g o.L o.na hs ho p hp]
+        exact denseUpdate_congr c _ _ _ _ o.g o.L o.na p (hv p hp) (hc _ (covpix_lt c p hp))
+      · intro k hk
+        rw [updateCore_covered c vc s o.g o.L o.na hs ho k hk]
+        exact denseCov_congr c _ _ o.L o.na k (hc k hk)
+  exact key h s (abs c vc s, covered c s) hs hr (fun _ _ => rfl) (fun _ _ => rfl)
 
 /-- The empty map reads as the sentinel everywhere. -/
 theorem makeEmpty_abs (c : Cfg) (vc : VCfg V) (P : List Nat)
     (hnd : P.Nodup) (hlt : ∀ k ∈ P, k < c.ncov) (p : Nat) (hp : p < c.npix) :
     abs c vc (makeEmpty c vc P) p = vc.sentinel := by
-  sorry
+  exact makeEmpty_abs' c vc P p
 
 /-- Pixels never written read as the sentinel, after any history from the empty map. -/
 theorem never_written_reads_sentinel (c : Cfg) (vc : VCfg V)
     (h : List (UpdOp V)) (hr : ∀ o ∈ h, o.inRange c) (p : Nat) (hp : p < c.npix)
     (hnw : ∀ o ∈ h, ∀ qw ∈ o.L, qw.1 ≠ p) :
     abs c vc (runHist c vc (makeEmpty c vc []) h) p = vc.sentinel := by
-  sorry
+  have key : ∀ (h : List (UpdOp V)) (s : State V), Inv c vc s → (∀ o ∈ h, o.inRange c) →
+      (∀ o ∈ h, ∀ qw ∈ o.L, qw.1 ≠ p) → abs c vc (runHist c vc s h) p = abs c vc s p := by
+    intro h
+    induction h with
+    | nil => intro s _ _ _; rfl
+    | cons o h ih =>
+      intro s hs hr hnw
+      have ho : o.inRange c := hr o List.mem_cons_self
+      have := ih (updateCore c vc s o.g o.L o.na)
+        (C04.inv_updateCore c vc s o.g o.L o.na hs ho)
+        (fun o' ho' => hr o' (List.mem_cons_of_mem _ ho'))
+        (fun o' ho' => hnw o' (List.mem_cons_of_mem _ ho'))
+      rw [updateCore_refines c vc s o.g o.L o.na hs ho p hp,
+        denseUpdate_untouched c _ _ o.g o.L o.na p (hnw o List.mem_cons_self)] at this
+      exact this
+  rw [key h _ (C04.inv_makeEmpty c vc [] List.nodup_nil (fun _ hk => nomatch hk)) hr hnw]
+  exact makeEmpty_abs c vc [] List.nodup_nil (fun _ hk => nomatch hk) p hp
 
 /-- `None` (clear) on a kind whose clear value is the sentinel: every addressed pixel reads
     the sentinel afterwards, covered or not, and nothing else changes. -/
@@ -89,7 +128,18 @@ theorem clear_spec (c : Cfg) (vc : VCfg V) (s : State V) (h : Inv c vc s)
     (pix : List Nat) (hL : ∀ q ∈ pix, q < c.npix) (p : Nat) (hp : p < c.npix) :
     abs c vc (updateCore c vc s (fun _ (w : V) => w) (pix.map (·, vc.sentinel)) true) p
       = if p ∈ pix then vc.sentinel else abs c vc s p := by
-  sorry
+  have hL' : ∀ qw ∈ pix.map (·, vc.sentinel), qw.1 < c.npix := by
+    intro qw hq
+    obtain ⟨q, hq', rfl⟩ := List.mem_map.1 hq
+    exact hL q hq'
+  rw [updateCore_refines c vc s _ _ true h hL' p hp]
+  unfold denseUpdate
+  rw [denseFold_clear]
+  cases hc : covered c s (p >>> c.shift) with
+  | true => simp
+  | false =>
+    have := h.abs_uncovered hp hc
+    simp [this]
 
 end C01
 end HS
